@@ -346,6 +346,7 @@ def run(chk, tier):
         chk.analysis_broken("SLOTS-W: only %d growing size stores found in basic_inplace_string (floor 4)" % chk.rule_instances.get("SLOTS-W", 0))
     same_name_delegation(chk, db)
     clamp_rule(chk, db)
+    c08.exit_rule(chk, plain)      # inplace_string's searches are etl::strings::find / string_view members
     # NULFREE: counted operations never reach a routine that stops at a null character (embedded nulls are characters)
     c08.nulfree_rule(chk, db, STRING, 100)
     nrel = rel.check(chk, db, ["_string/basic_inplace_string.hpp"])
